@@ -458,7 +458,7 @@ func TestC20(t *testing.T) {
 		Rule: "rapid draws a public/non-public assignment for the 14 symbols of a store (scalars, fk, sets, fk sets with a self-link, map) with 0-3 non-public ones and a typed query from the C01 generator (all atom kinds incl. set functions, in/between/contains/icontains, null tests, map elements, count/isEmpty sub-queries over the self-link) plus 0-3 sort fields. " +
 			"ValidateSymbolsArePublic must accept iff every referenced symbol is public (reference set computed from the generated AST) and otherwise return an UnknownSymbolError naming a referenced non-public symbol. " +
 			"Exhaustive part: every symbol of the store (scalars, fk, sets, single-level and nested map elements) x every syntactic position of a small query (comparison, null test, in, between, icontains, bare bool symbol, anyOf, allOf..in, count, isEmpty, sub-query link, inside count/isEmpty sub-queries, under nested connectives, sort field with and without predicate) x {all public, that symbol non-public}. " +
-			"Also generated: dotted symbols (boss.sa, home.name, peers.sa) with a publicity of their own placed before / after a conjunct naming their link symbol, sort lists of up to 8 fields. " +
+			"Also generated: dotted symbols (boss.sa, home.name, peers.sa) with a publicity of their own placed before / after a conjunct naming their link symbol, sort lists of up to 8 fields. Also: nested sub-queries and sub-queries whose filter is the constant true. " +
 			"Non-trivial: the query references >= 2 symbols of which exactly one is non-public, or (exhaustive part) the single referenced symbol is non-public. Distinct by hash of the case JSON; the classes histogram counts every syntactic position of a referenced / non-public symbol.",
 		Assumptions: []string{"dotted linked symbols (boss.sa) are not generated: the property defines publicity only for plain symbols and map elements",
 			"sub-queries range over a link set pointing back at the same store, so that 'public for the store' is unambiguous inside the sub-query"},
